@@ -80,6 +80,11 @@ for _pid in ('C15', 'C16', 'C17'):
                     'signatures': {}, 'search': None}
 
 
+from . import class_family  # noqa: E402
+
+CHECKS['C08'] = {'run': class_family.run_c08, 'signatures': {}, 'search': None}
+
+
 def run_check(pid, tier, seed):
     chk = CHECKS[pid]
     return core.decide(pid, tier, seed, chk['run'], signatures=chk.get('signatures'),
@@ -108,4 +113,4 @@ def replay(payload):
     return handler(pid, fl)
 
 
-REPLAYERS = {'access': access_family.replay, 'collection': coll_family.replay, 'collection-perm': coll_family.replay, 'validate': coll_family.replay}
+REPLAYERS = {'classify': class_family.replay, 'classify-bytes': class_family.replay, 'access': access_family.replay, 'collection': coll_family.replay, 'collection-perm': coll_family.replay, 'validate': coll_family.replay}
